@@ -71,4 +71,51 @@ def readLogHistory (rows : List (LogRec R)) : Except Err (List Step × List (Lis
   | .ok p => .ok (processIdsT (rows.map (fun r => { i := r.step, id := r.id.map some })) rows.length, p)
   | .error e => .error e
 
+/-! ### the id column of a parameter file, and the matching readers -/
+
+/-- the id of one entry of the `iter` list as a caller reads it: `s[1] if len(s) > 1 else None` -/
+def Step.idOf (s : Step) : Option Int :=
+  match s.id with
+  | none => none
+  | some j => j
+
+/-- the id column of what `read_raw_file(f, iter=True)` returns for a file of `n` records (`None`, returned for a
+file without records, has no entries) -/
+def idColumn (ids : Option (List Step)) (n : Nat) : List (Option Int) :=
+  match ids with
+  | none => List.replicate n none
+  | some l => l.map Step.idOf
+
+/-- the iteration number an entry of a trajectory with ids carries: the number of EARLIER entries recorded with
+the same id (one counter per id: `[0, 1, 1, 0]` gives `0, 0, 1, 1`; a single id gives `0, 1, 2, ...`) -/
+def perIdIter (ids : List (Option Int)) : List Nat :=
+  (List.range ids.length).map (fun i => (ids.take i).count (ids.getD i none))
+
+/-- `read_support_file(f, iter=True)` (munge.py l.403-420) = `read_raw_file` followed by `raw_to_support` on the
+parameters AS THEY ARE IN THE FILE (a table of 1-tuples: every row a `.mat`) -/
+def readSupportParams (table : List (List (List R))) : Except Err (List (List (List R))) :=
+  rawToSupportPV (table.map PV.mat)
+
+/-- `read_converge_file(f, iter=True)` (l.396-400) = `read_raw_file` followed by `raw_to_converge` -/
+def readConvergeParams (table : List (List (List R))) : Except Err (List (List (List R))) :=
+  rawToConvergePV (table.map PV.mat)
+
+/-- `write_support_file(m, f); read_support_file(f, iter=True)` -/
+def Mon.supportRoundTrip [Mul R] [Div R] (m : Mon R) : Option (Except Err (RawFile R (List (List (List R))))) :=
+  match m.writeSupport with
+  | none => none
+  | some f =>
+    match readSupportParams f.params with
+    | .ok p => some (.ok { ids := f.ids, params := p, cost := f.cost })
+    | .error e => some (.error e)
+
+/-- `write_converge_file(m, f); read_converge_file(f, iter=True)` -/
+def Mon.convergeRoundTrip [Mul R] [Div R] (m : Mon R) : Option (Except Err (RawFile R (List (List (List R))))) :=
+  match m.writeConverge with
+  | none => none
+  | some f =>
+    match readConvergeParams f.params with
+    | .ok p => some (.ok { ids := f.ids, params := p, cost := f.cost })
+    | .error e => some (.error e)
+
 end MysticVerif.Mon
